@@ -240,8 +240,13 @@ func (rpt *Report) newGraph(nodes graph.NodeSet) *graph.Graph {
 
 	// Clean up file paths using heuristics.
 	prof := rpt.prof
-	for _, f := range prof.Function {
-		f.Filename = trimPath(f.Filename, o.TrimPath, o.SourcePath)
+	if !rpt.pathsTrimmed {
+		// Only once per report: trimPath is not idempotent, and file names
+		// are part of the keys used to rebuild the graph while trimming it.
+		for _, f := range prof.Function {
+			f.Filename = trimPath(f.Filename, o.TrimPath, o.SourcePath)
+		}
+		rpt.pathsTrimmed = true
 	}
 	// Removes all numeric tags except for the bytes tag prior
 	// to making graph.
@@ -1278,8 +1283,8 @@ func New(prof *profile.Profile, o *Options) *Report {
 		}
 		return measurement.ScaledLabel(v, o.SampleUnit, o.OutputUnit)
 	}
-	return &Report{prof, computeTotal(prof, o.SampleValue, o.SampleMeanDivisor),
-		o, format}
+	return &Report{prof: prof, total: computeTotal(prof, o.SampleValue, o.SampleMeanDivisor),
+		options: o, formatValue: format}
 }
 
 // NewDefault builds a new report indexing the last sample value
@@ -1336,6 +1341,8 @@ type Report struct {
 	total       int64
 	options     *Options
 	formatValue func(int64) string
+
+	pathsTrimmed bool // file names of prof have been trimmed by newGraph
 }
 
 // Total returns the total number of samples in a report.
